@@ -1,5 +1,6 @@
 import Driver.Util
 import HeimdallModel.Spec.Jwt
+import HeimdallModel.Model.JwtProcess
 -- @family jwt
 /-! Line-protocol family `jwt` (property C05): the case as generated plus, per request, the abstract view `abs` of
 the minted token (computed by the harness with the Go standard library only) → verdicts of `Jwt.run` (the functions
@@ -184,6 +185,29 @@ def templateUnmodelled (cfg : Config) (p : Presented) : Bool :=
 
 def marker (s : String) : Json := Json.mkObj [("verdict", s)]
 
+/-- another mechanism created in the process of the authenticator under test: what it configures as allowed
+algorithms at mechanism level and, if a rule-level copy is made, at rule level -/
+def neighbour (j : Json) : E Neighbour := do
+  let a := fldD (fldD j "conf" (Json.mkObj [])) "assertions" (Json.mkObj [])
+  let r := fldD j "rule" Json.null
+  let ruleAlgs ← if r.isNull then pure none
+                 else (do pure (some (← strsD (fldD r "assertions" (Json.mkObj [])) "allowed_algorithms")))
+  pure { kind := if strD j "type" "" == "jwt" then .jwt else .introspection,
+         algs := ← strsD a "allowed_algorithms", ruleAlgs := ruleAlgs }
+
+/-- the moment a neighbour is created: `none` = before the first request (before the authenticator under test or
+between its prototype and its rule-level copy), `some k` = just before request `k` (0-based) -/
+def moment (j : Json) : Option Nat :=
+  match j.getObjVal? "at" with
+  | .ok (.num n) => some n.mantissa.toNat
+  | _ => none
+
+/-- the history of the process: creations and requests in the order they happen -/
+def history (ns : List (Option Nat × Neighbour)) (steps : List (World × Presented × Int)) : List Event :=
+  (ns.filter (·.1.isNone)).map (fun (_, n) => Event.create n) ++
+    (steps.zipIdx.map fun ((w, p, n), k) =>
+      ((ns.filter (·.1 == some k)).map fun (_, x) => Event.create x) ++ [Event.request w p n]).flatten
+
 def run (c : Json) : E Json := do
   let (cfg, special) ← config c
   let rule ← if isNull c "rule" then pure none
@@ -200,8 +224,9 @@ def run (c : Json) : E Json := do
     steps := steps ++ [(← world c jw, presented a, ← int a "now")]
   let a ← fld c "abs"
   steps := steps ++ [(← world c (fldD c "jwks" (Json.mkObj [])), presented a, ← int a "now")]
-  let lo := Heimdall.Jwt.run cfg rule (steps.map fun (w, p, n) => (w, p, n * 1000)) []
-  let hi := Heimdall.Jwt.run cfg rule (steps.map fun (w, p, n) => (w, p, n * 1000 + 999)) []
+  let ns ← (arrD c "neighbours").mapM fun j => do pure (moment j, ← neighbour j)
+  let lo := Heimdall.Jwt.runIn cfg rule (history ns (steps.map fun (w, p, n) => (w, p, n * 1000))) {} []
+  let hi := Heimdall.Jwt.runIn cfg rule (history ns (steps.map fun (w, p, n) => (w, p, n * 1000 + 999))) {} []
   let unmod := special || steps.any (fun (_, p, _) => templateUnmodelled cfg p) ||
     boolD a "unmodelled_header" false || absPre.any (fun a => boolD a "unmodelled_header" false)
   let mut out : List Json := []
